@@ -979,10 +979,17 @@ func (it *flowAnalysis) step(c *fctx, b *ssa.BasicBlock, instr ssa.Instruction, 
 				c.retParts[i] = newAval()
 			}
 			it.merge(c.retParts[i], rv)
-			it.addLabels(c.retParts[i], depol(stripKB(ctl)))
+			// which return is taken matters to the result only if the returns differ: a function
+			// whose every return hands back the same SSA value (typically its own parameter) yields
+			// that value on every path
+			rc := ctl
+			if sameResultOnAllReturns(c.fn, i) {
+				rc = c.ctl
+			}
+			it.addLabels(c.retParts[i], depol(stripKB(rc)))
 			it.merge(c.ret, rv)
+			it.addLabels(c.ret, depol(stripKB(rc)))
 		}
-		it.addLabels(c.ret, depol(stripKB(ctl)))
 	case *ssa.MakeClosure:
 		a := c.get(it, in)
 		for _, bnd := range in.Bindings {
@@ -1329,4 +1336,26 @@ func (it *flowAnalysis) sortedCalls() []*callRecord {
 		out = append(out, it.calls[k])
 	}
 	return out
+}
+
+// sameResultOnAllReturns: every return of fn has the same SSA value as its i-th result (and there is
+// more than one return, otherwise the question does not arise and the ordinary rule applies).
+func sameResultOnAllReturns(fn *ssa.Function, i int) bool {
+	var first ssa.Value
+	n := 0
+	for _, ret := range returnsOf(fn) {
+		if i >= len(ret.Results) {
+			return false
+		}
+		if n == 0 {
+			first = ret.Results[i]
+		} else if ret.Results[i] != first {
+			return false
+		}
+		n++
+	}
+	if n < 2 {
+		return false
+	}
+	return true
 }
